@@ -11,6 +11,11 @@
 import ChessVerif.Proofs.RepGame
 import ChessVerif.Proofs.RepExampleAbs
 import ChessVerif.Proofs.RepExampleD7
+import ChessVerif.Proofs.RepClosedExample
+import ChessVerif.Proofs.RepClosedExampleLong
+import ChessVerif.Proofs.RepClosedExampleD7
+import ChessVerif.Proofs.RepClosedUci
+import ChessVerif.Proofs.RepClosedZobrist
 
 namespace ChessVerif.Props.C10
 open ChessVerif Rep Rules
@@ -94,5 +99,226 @@ example : d7B.valid = true ∧ Rules.epNormal d7B.abs = false ∧
 example : ({ Board.empty with hashes := [7, 1, 7, 7, 7, 7, 2, 3, 7] } : Board).threefold = 3 := by decide +kernel
 example : ({ Board.empty with hashes := [7, 1, 7, 7, 9, 7, 2, 3, 7] } : Board).threefold = 2 := by decide +kernel
 example : ({ Board.empty with hashes := [7, 7, 7, 7, 9, 7, 2, 7] } : Board).threefold = 1 := by decide +kernel
+
+end ChessVerif.Props.C10
+
+/-! ## C10 closed: `AbsSteps` (C02) and `HashTied` (C04) discharged, no bound on the halfmove clock
+
+  `threefold_eq` above takes the facts of C02 and C04 as hypotheses by name.  Below they are PROVED along
+  the game from `Props.C01` (`legal_playable`, `playable_eq_legal`, `valid_make_of_clock_lt`), `Props.C02`
+  (`make_refines_rules`) and `Props.C04` (`inv_make`), by induction over the move list
+  (Proofs/RepClosed*.lean).
+
+  The clock.  `Board.valid` bounds the halfmove clock by 100, `valid_make` has a clock side condition,
+  the int8 field wraps at 128 — and a game with many reversible moves leaves that range.  The count
+  never reads the clock, and `MakeMove` lets the clock flow only into the clock
+  (`RepClosed.setFifty_make`); so each of C01/C02/C04 is applied to the board with its clock reset to 0
+  (which IS in their domain) and transported back.  `RepClosed.ValidNC b` = "`Board.valid` of `b` with the
+  clock reset" = every clause of `Board.valid` except the two clock bounds; it is closed under legal
+  moves with no side condition.  Consequently the statements below have NO hypothesis on the clock
+  of any position of the game, and hold for games of any length.
+
+  What remains: `HashFaithful` (first form) or, better, only its unprovable half `NoCollision`
+  (second form) — "two boards of this history with the same Zobrist hash show the same position".  The
+  other half ("same position ⇒ same hash") is proved from C04's `calcHash_congr`; it is exactly there
+  that the start's `epNormal` is needed (known finding D7 is its failure). -/
+
+namespace ChessVerif.Props.C10
+open ChessVerif Rep Rules RepClosed
+
+/-- validity without the two clock clauses (the board with the clock reset to 0 is valid). -/
+abbrev ValidNC := RepClosed.ValidNC
+
+theorem validNC_of_valid {b : Board} (h : Board.valid b = true) : ValidNC b := RepClosed.validNC_of_valid h
+
+/-- every move word is the engine's encoding of its decoding (true of every generated move). -/
+abbrev Canon := RepClosed.Canon
+
+/-- the remaining hypothesis: within this history, equal from-scratch hashes ⇒ same position
+    (art. 9.2.2).  One direction of `HashFaithful`; the other is proved. -/
+abbrev NoCollision := RepClosed.NoCollision
+
+/-- **C10 closed (`HashFaithful` form).**  For every key table `K`, every valid start board `b₀` with
+    a normal en-passant state whose hash history is the single from-scratch hash (as `FromFEN` /
+    `ResetHash` leave it), every list `ms` of canonical move words whose decodings form a legal game
+    by the rule book — of any length, with any number of reversible moves — and `HashFaithful` on the
+    boards of the game: `Threefold()` of the current board = the number of occurrences of the current
+    position in the game history (art. 9.2.2), capped at three.
+    `AbsSteps` and `HashTied` of `threefold_eq` are no longer hypotheses. -/
+theorem threefold_eq_closed (K : Keys) (b₀ : Board) (ms : List Move)
+    (hv : Board.valid b₀ = true) (_hstart : Rules.epNormal b₀.abs = true)
+    (hh : b₀.hashes = [b₀.calcHash K])
+    (hcanon : Canon ms) (hleg : legalGame b₀.abs (ms.map decodeMove))
+    (hf : HashFaithful ((boards K b₀ ms).map fun b => (b.abs, b.calcHash K))) :
+    (run K b₀ ms).threefold =
+      min 3 (occurrences (run K b₀ ms).abs (positions b₀.abs (ms.map decodeMove))) :=
+  RepClosed.threefold_eq_closed_words K b₀ ms (validNC_of_valid hv) hh hcanon hleg hf
+
+/-- **C10 closed (`NoCollision` form) — the only non-structural hypothesis is the absence of a Zobrist
+    collision within the history.**  Here `hstart` is used: it makes "same position ⇒ same hash" a
+    theorem. -/
+theorem threefold_eq_closed_nocollision (K : Keys) (b₀ : Board) (ms : List Move)
+    (hv : Board.valid b₀ = true) (hstart : Rules.epNormal b₀.abs = true)
+    (hh : b₀.hashes = [b₀.calcHash K])
+    (hcanon : Canon ms) (hleg : legalGame b₀.abs (ms.map decodeMove))
+    (hc : NoCollision K (boards K b₀ ms)) :
+    (run K b₀ ms).threefold =
+      min 3 (occurrences (run K b₀ ms).abs (positions b₀.abs (ms.map decodeMove))) :=
+  RepClosed.threefold_eq_nocollision_words K b₀ ms (validNC_of_valid hv) hstart hh hcanon hleg hc
+
+/-- the same, the start board only `ValidNC` (its own clock may already be out of range: a game
+    continued from a position reached earlier and re-hashed). -/
+theorem threefold_eq_closed_nc (K : Keys) (b₀ : Board) (ms : List Move)
+    (hv : ValidNC b₀) (hstart : Rules.epNormal b₀.abs = true) (hh : b₀.hashes = [b₀.calcHash K])
+    (hcanon : Canon ms) (hleg : legalGame b₀.abs (ms.map decodeMove))
+    (hc : NoCollision K (boards K b₀ ms)) :
+    (run K b₀ ms).threefold =
+      min 3 (occurrences (run K b₀ ms).abs (positions b₀.abs (ms.map decodeMove))) :=
+  RepClosed.threefold_eq_nocollision_words K b₀ ms hv hstart hh hcanon hleg hc
+
+/-- **in the rule book's own terms**: ANY sequence `mvs` of legal moves of the rule book; the engine
+    plays their encodings. -/
+theorem threefold_eq_closed_mv (K : Keys) (b₀ : Board) (mvs : List Mv)
+    (hv : Board.valid b₀ = true) (hstart : Rules.epNormal b₀.abs = true)
+    (hh : b₀.hashes = [b₀.calcHash K]) (hleg : legalGame b₀.abs mvs)
+    (hc : NoCollision K (boards K b₀ (mvs.map encodeMove))) :
+    (run K b₀ (mvs.map encodeMove)).threefold =
+      min 3 (occurrences (run K b₀ (mvs.map encodeMove)).abs (positions b₀.abs mvs)) :=
+  RepClosed.threefold_eq_nocollision_mv K b₀ mvs (validNC_of_valid hv) hstart hh hleg hc
+
+/-- **in the engine's own terms**: every move is playable (`MoveGen.playable`: generated, own king not
+    left in check) in the position it is made in — what the UCI driver and the search do.  Legality by
+    the rule book is then a conclusion (C01). -/
+theorem threefold_eq_closed_playable (K : Keys) (b₀ : Board) (ms : List Move)
+    (hv : Board.valid b₀ = true) (hstart : Rules.epNormal b₀.abs = true)
+    (hh : b₀.hashes = [b₀.calcHash K]) (hplay : EpTarget.PlayableSeq K b₀ ms)
+    (hc : NoCollision K (boards K b₀ ms)) :
+    legalGame b₀.abs (ms.map decodeMove) ∧
+    (run K b₀ ms).threefold =
+      min 3 (occurrences (run K b₀ ms).abs (positions b₀.abs (ms.map decodeMove))) :=
+  RepClosed.threefold_eq_nocollision_playable K b₀ ms (validNC_of_valid hv) hstart hh hplay hc
+
+/-- **"however it was set up"**: the UCI command `position fen <FEN of b> moves ms₁` (any valid `b`;
+    the move number within the range of the Go `int`, as in C11) followed by the moves `ms₂` made with
+    `MakeMove` (the search). -/
+theorem threefold_eq_closed_uci (K : Keys) (cur b : Board) (ms₁ ms₂ : List Move)
+    (hv : Board.valid b = true) (hfm : b.fullMoves < 2 ^ 63) (hstart : Rules.epNormal b.abs = true)
+    (hplay : EpTarget.PlayableSeq K (EpTarget.installed K b) (ms₁ ++ ms₂))
+    (hc : NoCollision K (boards K (EpTarget.installed K b) (ms₁ ++ ms₂))) :
+    legalGame b.abs ((ms₁ ++ ms₂).map decodeMove) ∧
+    (run K (UciPosition.handlePositionS K cur
+        ("fen" :: (Fen.printFields b ++ "moves" :: ms₁.map Move.toUCI))) ms₂).threefold =
+      min 3 (occurrences
+        (run K (UciPosition.handlePositionS K cur
+          ("fen" :: (Fen.printFields b ++ "moves" :: ms₁.map Move.toUCI))) ms₂).abs
+        (positions b.abs ((ms₁ ++ ms₂).map decodeMove))) :=
+  RepClosed.threefold_eq_uci K cur b ms₁ ms₂ hv hfm hstart hplay hc
+
+/-- the ingredients, for the record: along any legal game the boards abstract to the rule-book
+    positions modulo the clock and are `ValidNC` (C01/C02), the hash history is the list of from-scratch
+    hashes of the boards (C04, = `HashTied`), and the engine's words decode to the moves. -/
+theorem game_facts (K : Keys) (b₀ : Board) (mvs : List Mv) (hv : ValidNC b₀)
+    (hh : b₀.hashes = [b₀.calcHash K]) (hleg : legalGame b₀.abs mvs) :
+    RepClosed.Tied (positions b₀.abs mvs) (boards K b₀ (mvs.map encodeMove)) ∧
+    HashTied K b₀ (mvs.map encodeMove) ∧
+    ValidNC (run K b₀ (mvs.map encodeMove)) ∧ Board.Inv K (run K b₀ (mvs.map encodeMove)) ∧
+    (mvs.map encodeMove).map decodeMove = mvs :=
+  RepClosed.tied_and_hashTied K b₀ mvs hv hh hleg
+
+/-- "same position ⇒ same hash" (the proved half of `HashFaithful`), for `ValidNC` boards with normal
+    en-passant state and arbitrary keys. -/
+theorem same_position_same_hash (K : Keys) {x y : Board} (hx : ValidNC x) (hy : ValidNC y)
+    (nx : Rules.epNormal x.abs = true) (ny : Rules.epNormal y.abs = true)
+    (h : sameForRepetition x.abs y.abs = true) : x.calcHash K = y.calcHash K :=
+  RepClosed.calcHash_eq_of_same K hx hy nx ny h
+
+/-- one legal move from a `ValidNC` board satisfying C04's invariant, whatever the clock: the
+    encoding is playable (C01) and decodes back, the successor is `ValidNC` (C01 closure, no side
+    condition), abstracts to `Rules.apply` modulo the clock (C02), satisfies the invariant and extends
+    the history by its from-scratch hash (C04). -/
+theorem step_closed (K : Keys) {b : Board} {mv : Mv} (hv : ValidNC b) (hi : Board.Inv K b)
+    (hl : legal b.abs mv = true) : RepClosed.StepFacts K b mv := RepClosed.step K hv hi hl
+
+/-- `NoCollision` read as a statement about the key table alone: along a legal game from a normal
+    start it is equivalent to "`calculateHash` is injective on the hashed features (`Board.SamePosition`
+    of C04: placement, side to move, castling rights, en-passant file state) of the boards of the
+    game". -/
+theorem noCollision_iff_zobristInjective (K : Keys) (b₀ : Board) (mvs : List Mv)
+    (hv : ValidNC b₀) (hstart : Rules.epNormal b₀.abs = true) (hh : b₀.hashes = [b₀.calcHash K])
+    (hleg : legalGame b₀.abs mvs) :
+    NoCollision K (boards K b₀ (mvs.map encodeMove)) ↔
+      ∀ x ∈ boards K b₀ (mvs.map encodeMove), ∀ y ∈ boards K b₀ (mvs.map encodeMove),
+        x.calcHash K = y.calcHash K → Board.SamePosition x y :=
+  RepClosed.noCollision_iff_injective K b₀ mvs hv hstart hh hleg
+
+/-- **C10 as ONE closed proposition** (the property text: "a valid start position followed by any
+    sequence of legal moves"): every key table, every valid start with a normal en-passant state and a
+    freshly reset hash history, ANY list of legal moves of the rule book (no bound on its length or on
+    the clocks), played by the engine as their encodings; no Zobrist collision in the history. -/
+def C10_closed_full : Prop :=
+  ∀ (K : Keys) (b₀ : Board) (mvs : List Mv),
+    Board.valid b₀ = true → Rules.epNormal b₀.abs = true → b₀.hashes = [b₀.calcHash K] →
+    legalGame b₀.abs mvs →
+    NoCollision K (boards K b₀ (mvs.map encodeMove)) →
+    (run K b₀ (mvs.map encodeMove)).threefold =
+      min 3 (occurrences (run K b₀ (mvs.map encodeMove)).abs (positions b₀.abs mvs))
+
+/-- … which holds. -/
+theorem C10_closed_full_holds : C10_closed_full :=
+  fun K b₀ mvs hv hs hh hl hc => threefold_eq_closed_mv K b₀ mvs hv hs hh hl hc
+
+/-! ### non-vacuity of the closed theorems -/
+
+open Rep.Example RepClosed.Example
+
+-- the knight shuffle through the closed theorems (both forms): every hypothesis is met, the count is 2
+example : (run testKeys sparseB shuffle).threefold = 2 ∧
+    min 3 (occurrences (run testKeys sparseB shuffle).abs (positions sparseB.abs (shuffle.map decodeMove))) = 2 := by
+  have h := threefold_eq_closed testKeys sparseB shuffle sparse_valid sparse_epNormal sparse_hashes
+    shuffle_canon shuffle_legal shuffle_faithful
+  exact ⟨shuffle_two, by rw [← h]; exact shuffle_two⟩
+
+example : min 3 (occurrences (run testKeys sparseB shuffle).abs (positions sparseB.abs (shuffle.map decodeMove))) = 2 := by
+  rw [← threefold_eq_closed_nocollision testKeys sparseB shuffle sparse_valid sparse_epNormal sparse_hashes
+    shuffle_canon shuffle_legal shuffle_noCollision]
+  exact shuffle_two
+
+-- the rule-book form on the same game
+example : (run testKeys sparseB (shuffleMv.map encodeMove)).threefold =
+    min 3 (occurrences (run testKeys sparseB (shuffleMv.map encodeMove)).abs (positions sparseB.abs shuffleMv)) :=
+  threefold_eq_closed_mv testKeys sparseB shuffleMv sparse_valid sparse_epNormal sparse_hashes shuffle_legalMv
+    (by rw [shuffle_enc]; exact shuffle_noCollision)
+
+/-- **a game of arbitrary length**: the shuffle repeated `n` times is a legal game without collisions
+    (`RepClosed.periodic_game`: proved from the first round, not evaluated), so the closed theorem
+    applies for every `n` — 4·n reversible plies. -/
+example (n : Nat) : legalGame sparseB.abs (rep n shuffleMv) ∧
+    NoCollision testKeys (boards testKeys sparseB (rep n shuffle)) := long_game n
+
+example (n : Nat) : (run testKeys sparseB (rep n shuffle)).threefold =
+    min 3 (occurrences (run testKeys sparseB (rep n shuffle)).abs (positions sparseB.abs (rep n shuffleMv))) :=
+  long_closed n
+
+/-- … in particular for 33 rounds = 132 reversible plies, where the engine's int8 halfmove clock has
+    wrapped to −124 and the board is outside `Board.valid` (so neither `valid_make` nor
+    `make_refines_rules` applies to it): the model answers 3 and, by the theorem, the position has
+    occurred at least three times by the rule book. -/
+example : (rep 33 shuffle).length = 132 ∧
+    (run testKeys sparseB (rep 33 shuffle)).fifty = -124 ∧
+    Board.valid (run testKeys sparseB (rep 33 shuffle)) = false ∧
+    (run testKeys sparseB (rep 33 shuffle)).threefold = 3 ∧
+    min 3 (occurrences (run testKeys sparseB (rep 33 shuffle)).abs (positions sparseB.abs (rep 33 shuffleMv))) = 3 :=
+  ⟨long_length, long_clock, long_invalid, long_three, by rw [← long_closed 33]; exact long_three⟩
+
+/-- **`hstart` of the `NoCollision` form cannot be dropped** (known finding D7): the D7 history meets
+    every other hypothesis of `threefold_eq_closed_nocollision` — valid start, freshly reset history,
+    canonical words, legal game, and NO collision (the five hashes are pairwise different) — but its
+    start is not `epNormal`, and the conclusion fails (model 1, rule book 2). -/
+example : d7B.valid = true ∧ d7B.hashes = [d7B.calcHash testKeys] ∧ Canon d7Moves ∧
+    legalGame d7B.abs (d7Moves.map decodeMove) ∧ NoCollision testKeys (boards testKeys d7B d7Moves) ∧
+    Rules.epNormal d7B.abs = false ∧
+    (run testKeys d7B d7Moves).threefold ≠
+      min 3 (occurrences (run testKeys d7B d7Moves).abs (positions d7B.abs (d7Moves.map decodeMove))) :=
+  ⟨d7_valid, d7_hashes, d7_canon, d7_legal, d7_noCollision, d7_epNormal_false, d7_conclusion_fails⟩
 
 end ChessVerif.Props.C10
